@@ -246,6 +246,46 @@ def o_probe_k2(spec):
     return out
 
 
+# ---------------------------------------------------------------- a gate's matrix does not depend on what was evaluated before
+
+
+@st.composite
+def sequences(draw, tier):
+    kinds = draw(st.lists(st.sampled_from(["dag", "c", "ipow", "exp", "ipow", "c"]), min_size=1, max_size=3))
+    if kinds.count("exp") > 1:
+        kinds = [k for k in kinds if k != "exp"] + ["exp"]
+    angle = draw(cgen.angles())
+    pool = ["X", "Y", "Z", "H", "S", "SX", "I", "RX", "RY", "GPi2"] if "exp" in kinds else ["X", "Y", "Z", "H", "S", "T", "SX", "RX", "RY", "RZ", "PHASE", "GPi", "GPi2", "RH"]
+    names = draw(st.lists(st.sampled_from(pool), min_size=2, max_size=4))
+    k = 1
+    mods = []
+    for kd in kinds:
+        m = draw(_mod(kd, 3 - k))
+        if m[0] == "c":
+            k += m[1]
+        if m[0] == "pow" and m[1] < 0 and any(x[0] == "pow" for x in mods):
+            m = ["pow", 2]
+        mods.append(m)
+    gates = [{"g": nm, "p": [angle] * cgen.TABLE[nm][1], "mods": mods} for nm in names]
+    return {"gates": gates}
+
+
+def o_sequence(spec):
+    order = list(range(len(spec["gates"]))) + [0]
+    for step, i in enumerate(order):
+        gs = spec["gates"][i]
+        g = cgen.build_gate(gs)
+        A = must(lambda: _npm(g), f"matrix of {g}")
+        R = cgen.ref_gate_matrix(gs)
+        if not np.all(np.isfinite(A)):
+            return {"inconclusive": "non-finite"}
+        tol = 1e-7 * max(1.0, float(np.max(np.abs(R))))
+        require(A.shape == R.shape and np.allclose(A, R, atol=tol),
+                lambda: f"matrix of {g} (evaluated as number {step + 1} of a sequence of gates sharing modifiers) differs from its definition, max|d|={ref.maxdiff(A, R):.3g}")
+    names = [x["g"] for x in spec["gates"]]
+    return {"classes": ["with_exp"] if any(m[0] == "exp" for m in spec["gates"][0]["mods"]) else [], "nontrivial": len(set(names)) >= 2}
+
+
 PAIRS = ["pair:%s>%s" % (a, b) for a in KINDS for b in KINDS]
 
 SUBCHECKS = [
@@ -254,4 +294,7 @@ SUBCHECKS = [
     SubCheck("probe_K2", o_probe_k2, strategy=lambda t: chains(t, k2_class=True), examples=(40, 150), shards=(2, 4),
              rule="open finding K2: flagged self-adjoint base, non-integer power, optional controls, then dagger; accepted only when it holds or shows the recorded signature"),
 ]
+SUBCHECKS.append(SubCheck("evaluation_history", o_sequence, strategy=sequences, examples=(60, 400), shards=(6, 12), fork_timeout=60,
+                          rule="2..4 gates sharing the same modifier chain and parameters but different bases, evaluated one after another in one process "
+                               "(first one again at the end): each matrix equals the closed-form reference regardless of what was evaluated before"))
 SUBCHECKS[0].expected_classes = PAIRS + ["fractional", "custom_base"]
